@@ -225,6 +225,48 @@ def oracle_c10(step):
     return out
 
 
+def oracle_c12(step):
+    """after a successful `cargo vet prune` (exemption pruning on) an exemption, and each criterion it lists, remains only
+    if some in-graph version of that crate needs a criterion it provides and cannot be certified for it from audits and
+    grants alone — judged on the files prune wrote, with an independent reachability over the records"""
+    out = []
+    if step.cls != "prune" or step.outcome != "ok" or "--no-exemptions" in step.args:
+        return out
+    if step.concl("pre_check") != "success" or not step.post_store or not step.taps:
+        return out          # (a crate that fails to vet keeps its exemptions as written)
+    try:
+        store = step.post_store["store"]
+        graph = step.taps[-1]["model_input"]["graph"]
+        table = O.table_of(store)
+        nodes, _ = O.graph_nodes(graph)
+        R, _ = O.requirements(table, graph)
+    except Exception:
+        return out
+    if not R:
+        return out
+    no_exemption = lambda e: bool(e[4].get("exemption") or e[4].get("unpublished"))  # noqa
+    for name in sorted({nd["name"] for nd in nodes if nd["third"]}):
+        ps = O.pkg_store(store, name)
+        exempt = ps[7]
+        if not exempt:
+            continue
+        edges = O.edges_of(table, ps)
+        needy = set()          # criteria some in-graph version of this crate needs and cannot get from audits and grants
+        for i, nd in enumerate(nodes):
+            if nd["third"] and nd["name"] == name:
+                for r in R[i]:
+                    if not O.certified(edges, r, nd["version"], avoid=no_exemption):
+                        needy.add(r)
+        for x in exempt:
+            xver, crit, _sug = O.args(x)
+            for c in crit:
+                if not (O.closure(table, c) & needy):
+                    out.append({"what": f"after `prune` crate #{name} keeps an exemption (version rank {xver}) listing criterion #{c}, "
+                                        f"which no in-graph version of the crate needs beyond what audits and grants certify (needed: {sorted(needy)})"})
+                    return out
+    return out
+
+
 def covered(e, olds):
     pkg, ver, clo, sug, notes = e
     return any(o[0] == pkg and o[1] == ver and clo <= o[2] and sug == o[3] and notes == o[4] for o in olds)
@@ -378,13 +420,13 @@ def oracle_c13(step):
     cls = step.cls
     cmd = " ".join(step.args)
     rep = step.s.get("repeat")
-    if cls in ("check", "prune", "regenerate-imports", "regenerate-exemptions", "fmt") and rep:
+    if cls in ("check", "prune", "regenerate-imports", "regenerate-exemptions", "fmt", "trust") and rep:
         if rep["outcome"] == "ok" and not all(rep["same_bytes"]):
             f = None
             # the known finding: a second prune only DROPS entries the first one kept
             # (freshness promotion after the import); anything else is new
             # (the same pruning update, with the same mechanism, runs in regenerate imports / exemptions)
-            if cls in ("prune", "regenerate-imports", "regenerate-exemptions") and rep.get("files") and \
+            if cls in ("prune", "regenerate-imports", "regenerate-exemptions", "trust") and rep.get("files") and \
                     only_removals(step.s["files"], rep["files"]):
                 f = "F-C13-prune"
             # the known finding for regenerate exemptions: the second run re-minimises the exemptions
